@@ -10,6 +10,7 @@ import (
 	"fmt"
 	"math/rand"
 	"strings"
+	"testing/fstest"
 	"time"
 
 	"github.com/ichiban/prolog"
@@ -36,6 +37,17 @@ var c13Programs = []struct{ name, prog, query string }{
 	{"nested", "in :- \\+ \\+ findall(X, (repeat, X = 1, fail), _).", "in."},
 	{"initialization", "main :- main.", "EXEC::- initialization(main)."},
 	{"directive", "spin :- spin.", "EXEC::- spin."},
+	// file loads (consult/1, ensure_loaded/1) run nested trampolines for the file's directives and
+	// initialization goals: they must inherit the caller's context
+	{"consult", "spin :- spin.", "consult(loopdir)."},
+	{"consultinit", "spin :- spin.", "findall(x, consult(loopinit), _)."},
+	{"ensureloaded", "spin :- spin.", "EXEC::- ensure_loaded(nested)."},
+}
+
+var c13Files = fstest.MapFS{
+	"loopdir.pl":  {Data: []byte(":- spin.\n")},
+	"loopinit.pl": {Data: []byte(":- initialization(spin).\n")},
+	"nested.pl":   {Data: []byte(":- ensure_loaded(loopdir).\n")},
 }
 
 func genC13(r *rand.Rand, n int, tier string) []string {
@@ -65,6 +77,7 @@ func runC13(payload string) string {
 		}
 	}
 	i := prolog.New(nil, nil)
+	i.FS = c13Files
 	if prog != "" {
 		if err := i.Exec(prog); err != nil {
 			return "setup-" + errWire(err)
